@@ -34,6 +34,7 @@ use similar::{
     Change, ChangeTag, DiffOp, TextDiff,
 };
 
+static C08_EXPIRED: std::sync::atomic::AtomicBool = std::sync::atomic::AtomicBool::new(false);
 static THOROUGH: std::sync::atomic::AtomicBool = std::sync::atomic::AtomicBool::new(false);
 /// enumeration bound: `q` in the quick tier, `q + 1` in the thorough tier (`replay <MODE> thorough`)
 fn bd(q: usize) -> usize {
@@ -513,7 +514,11 @@ fn raw_modes(mode: &str, max_len: usize, expired: bool, cases: &mut u64) -> Opti
 }
 
 fn c01(cases: &mut u64) -> Option<String> {
-    raw_modes("C01", bd(6), false, cases)
+    if let Some(w) = raw_modes("C01", bd(6), false, cases) {
+        return Some(w);
+    }
+    // the same contract holds on the algorithms' give-up paths (deadline already expired)
+    raw_modes("C01", bd(5), true, cases)
 }
 
 /// C07: only "expired before the start" can be scheduled through the public API (the algorithms
@@ -1001,10 +1006,12 @@ fn run_stack<H: TestHook>(
 ) -> Result<(Result<(), usize>, Vec<Call>), String> {
     guard(|| {
         let (or, nr) = (0..old.len(), 0..new.len());
+        // second pass of mode C08: deadline already expired (the algorithms' give-up paths)
+        let dl = if C08_EXPIRED.load(std::sync::atomic::Ordering::Relaxed) { Some(expired_deadline()) } else { None };
         match stack {
             Stack::Plain => {
                 let mut h = H::make(fail_at);
-                let r = diff_deadline(alg, &mut h, old, or, new, nr, None);
+                let r = diff_deadline(alg, &mut h, old, or, new, nr, dl);
                 (r, h.into_calls())
             }
             Stack::MutRef => {
@@ -1017,22 +1024,22 @@ fn run_stack<H: TestHook>(
             }
             Stack::Replace => {
                 let mut d = Replace::new(H::make(fail_at));
-                let r = diff_deadline(alg, &mut d, old, or, new, nr, None);
+                let r = diff_deadline(alg, &mut d, old, or, new, nr, dl);
                 (r, d.into_inner().into_calls())
             }
             Stack::Compact => {
                 let mut d = Compact::new(H::make(fail_at), old, new);
-                let r = diff_deadline(alg, &mut d, old, or, new, nr, None);
+                let r = diff_deadline(alg, &mut d, old, or, new, nr, dl);
                 (r, d.into_inner().into_calls())
             }
             Stack::CompactReplace => {
                 let mut d = Compact::new(Replace::new(H::make(fail_at)), old, new);
-                let r = diff_deadline(alg, &mut d, old, or, new, nr, None);
+                let r = diff_deadline(alg, &mut d, old, or, new, nr, dl);
                 (r, d.into_inner().into_inner().into_calls())
             }
             Stack::NoFinish => {
                 let mut d = NoFinishHook::new(H::make(fail_at));
-                let r = diff_deadline(alg, &mut d, old, or, new, nr, None);
+                let r = diff_deadline(alg, &mut d, old, or, new, nr, dl);
                 (r, d.into_inner().into_calls())
             }
         }
@@ -1055,7 +1062,7 @@ fn expand_replace(calls: &[Call]) -> Vec<Call> {
 }
 
 fn c08_protocol<H: TestHook>(stack: Stack, alg: Algorithm, o: &[u32], n: &[u32], cases: &mut u64) -> Result<Vec<Call>, String> {
-    let ctx = format!("C08 alg={:?} stack={:?} ({}) old={:?} new={:?}", alg, stack, H::NAME, o, n);
+    let ctx = format!("C08 alg={:?} stack={:?} ({}) old={:?} new={:?} deadline={}", alg, stack, H::NAME, o, n, if C08_EXPIRED.load(std::sync::atomic::Ordering::Relaxed) { "Some(already expired)" } else { "None" });
     *cases += 1;
     let (res, calls) = run_stack::<H>(stack, alg, o, n, None).map_err(|p| format!("{}: {}", ctx, p))?;
     if let Err(e) = res {
@@ -1152,6 +1159,8 @@ fn c08(cases: &mut u64) -> Option<String> {
         }
     }
     let all = seqs(3, bd(4));
+    for expired in [false, true] {
+    C08_EXPIRED.store(expired, std::sync::atomic::Ordering::Relaxed);
     for o in &all {
         for n in &all {
             for &alg in &ALGS {
@@ -1165,12 +1174,14 @@ fn c08(cases: &mut u64) -> Option<String> {
                         Err(w) => return Some(w),
                     };
                     if expand_replace(&with) != without {
-                        return Some(format!("C08 alg={:?} stack={:?} old={:?} new={:?}: hook overriding replace saw {:?}; hook not overriding replace saw {:?}, expected every Replace as Delete followed by Insert", alg, stack, o, n, with, without));
+                        return Some(format!("C08 alg={:?} stack={:?} old={:?} new={:?} deadline {}: hook overriding replace saw {:?}; hook not overriding replace saw {:?}, expected every Replace as Delete followed by Insert", alg, stack, o, n, if expired { "expired" } else { "None" }, with, without));
                     }
                 }
             }
         }
     }
+    }
+    C08_EXPIRED.store(false, std::sync::atomic::Ordering::Relaxed);
     None
 }
 
@@ -1805,7 +1816,63 @@ fn c12_rec(ops: &mut Vec<DiffOp>, oi: usize, nj: usize, left: usize, cases: &mut
 }
 
 fn c12(cases: &mut u64) -> Option<String> {
-    c12_rec(&mut Vec::new(), 0, 0, 8, cases)
+    if let Some(w) = c12_rec(&mut Vec::new(), 0, 0, 8, cases) {
+        return Some(w);
+    }
+    c12_forwards(cases)
+}
+
+/// `TextDiff::grouped_ops(n)` and `Capture::into_grouped_ops(n)` are documented as `group_diff_ops` applied to the
+/// stored / captured ops: they must return exactly that, for small diffs and for one very large, almost identical pair
+/// (2^23 equal lines and one inserted line)
+fn c12_forwards(cases: &mut u64) -> Option<String> {
+    let small = seqs(3, bd(4));
+    for o in &small {
+        for nw in &small {
+            for n in 0..=2usize {
+                *cases += 1;
+                let (ot, nt) = (to_text(o), to_text(nw));
+                let r = guard(|| {
+                    let d = TextDiff::from_chars(&ot[..], &nt[..]);
+                    let mut c = Capture::new();
+                    similar::algorithms::diff_slices(Algorithm::Myers, &mut c, &o[..], &nw[..]).unwrap();
+                    let cap_ops = c.ops().to_vec();
+                    (d.grouped_ops(n), group_diff_ops(d.ops().to_vec(), n), c.into_grouped_ops(n), group_diff_ops(cap_ops, n))
+                });
+                match r {
+                    Err(p) => return Some(format!("C12 grouped_ops forwards old={:?} new={:?} n={}: {}", o, nw, n, p)),
+                    Ok((a, b, c, d)) => {
+                        if a != b {
+                            return Some(format!("C12 TextDiff::from_chars({:?},{:?}).grouped_ops({}) = {:?} but group_diff_ops(ops, {}) = {:?}", ot, nt, n, a, n, b));
+                        }
+                        if c != d {
+                            return Some(format!("C12 Capture::into_grouped_ops({}) = {:?} but group_diff_ops(ops, {}) = {:?} (old={:?} new={:?})", n, c, n, d, o, nw));
+                        }
+                    }
+                }
+            }
+        }
+    }
+    // very large, almost identical texts (the similarity ratio of such a pair rounds to 1.0 in f32, known finding K2)
+    *cases += 1;
+    let r = guard(|| {
+        let old = "x\n".repeat(1 << 23);
+        let mut new = String::with_capacity(old.len() + 8);
+        new.push_str(&old[..old.len() / 2]);
+        new.push_str("y\n");
+        new.push_str(&old[old.len() / 2..]);
+        let d = TextDiff::from_lines(&old[..], &new[..]);
+        (d.grouped_ops(3), group_diff_ops(d.ops().to_vec(), 3), d.ops().to_vec())
+    });
+    match r {
+        Err(p) => Some(format!("C12 grouped_ops on 2^23 equal lines + 1 inserted line: {}", p)),
+        Ok((a, b, ops)) => {
+            if a != b {
+                return Some(format!("C12 TextDiff::from_lines(2^23 lines \"x\", the same with one line \"y\" inserted in the middle).grouped_ops(3) = {:?} but group_diff_ops(ops, 3) = {:?}", a, b));
+            }
+            check_groups(&ops, 3, &a).err().map(|e| format!("C12 grouped_ops on 2^23 equal lines + 1 inserted line: groups {:?}: {}", a, e))
+        }
+    }
 }
 
 // ---------------------------------------------------------------------------------------------
@@ -2001,7 +2068,7 @@ fn split_lines(s: &str) -> Vec<String> {
     s.split_inclusive('\n').map(|x| x.to_string()).collect()
 }
 
-fn c05_check(old: &str, new: &str, hunks: &[(String, String)]) -> Result<(), String> {
+fn c05_check(old: &str, new: &str, hunks: &[(String, String)], radius: usize) -> Result<(), String> {
     let (ol, nl) = (split_lines(old), split_lines(new));
     let mut cursor = 0usize;
     let mut out: Vec<String> = Vec::new();
@@ -2026,6 +2093,18 @@ fn c05_check(old: &str, new: &str, hunks: &[(String, String)]) -> Result<(), Str
                 },
                 _ => return Err(format!("hunk #{}: body line {:?} has no ' ', '-', '+' prefix", hi, l)),
             }
+        }
+        // every hunk contains a change, with at most `radius` context lines at its edges, deletions before insertions
+        let lead = lines.iter().take_while(|l| l.0 == ' ').count();
+        let trail = lines.iter().rev().take_while(|l| l.0 == ' ').count();
+        if lead == lines.len() {
+            return Err(format!("hunk #{} header {:?} contains no change (clause: every hunk contains a change)", hi, header));
+        }
+        if lead > radius || trail > radius {
+            return Err(format!("hunk #{} header {:?}: {} leading / {} trailing context lines with radius {} (clause: at most radius context lines at its edges)", hi, header, lead, trail, radius));
+        }
+        if lines.windows(2).any(|w| w[0].0 == '+' && w[1].0 == '-') {
+            return Err(format!("hunk #{} header {:?}: an insertion directly precedes a deletion (clause: deletions before insertions)", hi, header));
         }
         let old_count = lines.iter().filter(|l| l.0 != '+').count();
         let new_count = lines.iter().filter(|l| l.0 != '-').count();
@@ -2078,12 +2157,20 @@ fn c05(cases: &mut u64) -> Option<String> {
                     let r = guard(|| {
                         let d = TextDiff::configure().algorithm(alg).diff_lines(&o[..], &n[..]);
                         let hunks: Vec<(String, String)> = d.unified_diff().context_radius(radius).iter_hunks().map(|h| (h.header().to_string(), h.to_string())).collect();
-                        (hunks, d.ops().to_vec())
+                        let whole = d.unified_diff().context_radius(radius).header("a", "b").to_string();
+                        (hunks, d.ops().to_vec(), whole)
                     });
                     match r {
                         Err(p) => return Some(format!("C05 alg={:?} old={:?} new={:?} radius={}: {}", alg, o, n, radius, p)),
-                        Ok((hunks, ops)) => {
-                            if let Err(e) = c05_check(o, n, &hunks) {
+                        Ok((hunks, ops, whole)) => {
+                            if o == n && !whole.is_empty() {
+                                return Some(format!("C05 alg={:?} old == new == {:?} radius={}: unified_diff().header(\"a\",\"b\") renders {:?} (clause: equal inputs render as the empty string, no file header)", alg, o, radius, whole));
+                            }
+                            let joined: String = hunks.iter().map(|h| h.1.clone()).collect();
+                            if o != n && whole != format!("--- a\n+++ b\n{}", joined) {
+                                return Some(format!("C05 alg={:?} old={:?} new={:?} radius={}: the rendered diff {:?} is not the file header once followed by the hunks {:?}", alg, o, n, radius, whole, joined));
+                            }
+                            if let Err(e) = c05_check(o, n, &hunks, radius) {
                                 let headers: Vec<&String> = hunks.iter().map(|h| &h.0).collect();
                                 return Some(format!("C05 TextDiff::configure().algorithm({:?}).diff_lines(old={:?}, new={:?}).unified_diff().context_radius({}): hunk headers {:?} (ops {:?}): {}", alg, o, n, radius, headers, ops, e));
                             }
@@ -2162,6 +2249,22 @@ fn c04(cases: &mut u64) -> Option<String> {
                     *cases += 1;
                     let tname = ["lines", "words", "chars"][tok];
                     let ctx = format!("C04/C17 tokenizer={} alg={:?} old={:?} new={:?}", tname, alg, o, n);
+                    // the same texts with a deadline that has already expired (the algorithms' give-up paths)
+                    *cases += 1;
+                    let rx = guard(|| {
+                        let mut cfg = TextDiff::configure();
+                        cfg.algorithm(alg).deadline(expired_deadline());
+                        let d = match tok {
+                            0 => cfg.diff_lines(&o[..], &n[..]),
+                            1 => cfg.diff_words(&o[..], &n[..]),
+                            _ => cfg.diff_chars(&o[..], &n[..]),
+                        };
+                        d.iter_all_changes().map(|c| (c.tag(), c.old_index(), c.new_index(), c.value().to_string())).collect::<Vec<TextFlat>>()
+                    });
+                    match rx {
+                        Err(p) => return Some(format!("{} deadline expired: {}", ctx, p)),
+                        Ok(ch) => if let Err(e) = c04_changes(&format!("{} deadline expired, iter_all_changes", ctx), o, n, &ch) { return Some(e); },
+                    }
                     let r = guard(|| {
                         let mut cfg = TextDiff::configure();
                         cfg.algorithm(alg);
@@ -2275,22 +2378,22 @@ fn main() {
     let mut cases = 0u64;
     let t0 = Instant::now();
     let (res, bounds) = match &mode[..] {
-        "C01" => (c01(&mut cases), "alphabet {0,1,2}, len 0..=6, 3 algorithms x (embedded sub-range, guarded Index, extracted slices)"),
+        "C01" => (c01(&mut cases), "alphabet {0,1,2}, len 0..=6, 3 algorithms x (embedded sub-range, guarded Index, extracted slices); again with an expired deadline for len 0..=5"),
         "C07" => (c07(&mut cases), "alphabet {0,1,2}, len 0..=6, deadline expired at entry, raw algorithms + capture_diff_deadline; builder plumbing; work after expiry <= 8(N+M)+16 on 6 shapes of 40 and 300 items"),
         "C07clock" => (c07_clock(&mut cases, false), "virtual clock (cfg similar_verif): alphabet {0,1,2} len 0..=5 x every deadline check k, plus 6 shapes of 120 items x sampled k; valid script, finish once, never-expiring == no deadline, work after expiry <= 8(N+M)+16"),
         "C05bytes" => (c05_bytes(&mut cases), "[u8] line texts (feature bytes) of 0..=3 lines over {a, b, 0xFF, a 0xFE b}, terminated or not, radius 0/3, header on/off: UnifiedDiff::to_writer keeps every change line's bytes, equals Display on UTF-8, Display is its lossy decoding otherwise"),
         "C06" => (c06(&mut cases), "str: all strings of length 0..=4 over 15 scalars (ASCII, CR, LF, TAB, VT, FF, NUL, NBSP, U+2028, U+3000, U+0085, combining mark, 2- and 4-byte chars) + 4 longer texts; [u8]: all byte strings of length 0..=4 over 13 bytes incl. invalid UTF-8; lines / lines_and_newlines / words / chars; str vs [u8] on the same bytes"),
         "C11clock" => (c07_clock(&mut cases, true), "virtual clock (cfg similar_verif, so the K1 hook is on too): alphabet {0,1,2} len 0..=5 x every deadline check k, plus 6 shapes of 120 items x sampled k: the ops of capture_diff_deadline carry exact indices on both sides (C11) under every expiry schedule"),
-        "C08" => (c08(&mut cases), "alphabet {0,1,2}, len 0..=4, 6 hook stacks x 2 hook kinds x every failing call index"),
+        "C08" => (c08(&mut cases), "alphabet {0,1,2}, len 0..=4, 6 hook stacks x 2 hook kinds x every failing call index x deadline {none, expired}"),
         "C02" => (c02(&mut cases), "alphabet {0,1,2}, len 0..=5, deadline none/expired, slices + sub-ranges + TextDiff chars; 15 text diffs of 101..260 tokens through the integer-mapping path"),
         "C03" => (c03(&mut cases), "alphabet {0,1,2} len 0..=6 and alphabet {0,1} len 0..=8, Myers + LCS, raw + captured"),
         "C09" => (c09(&mut cases), "alphabet {0,1,2}, len 0..=6, deadline none/expired"),
         "C10" => (c10(&mut cases), "alphabet {0,1}, len 0..=3, all valid scripts x all carried indices x 3 adapter stacks"),
         "C11" => (c11(&mut cases), "alphabet {0,1,2}, len 0..=5, slices + embedded sub-ranges"),
-        "C12" => (c12(&mut cases), "alternating exact op lists up to 8 ops, equal lens {1,2,3,5,8}, 6 change shapes, n 0..=3"),
+        "C12" => (c12(&mut cases), "alternating exact op lists up to 8 ops, equal lens {1,2,3,5,8}, 6 change shapes, n 0..=3; TextDiff::grouped_ops / Capture::into_grouped_ops == group_diff_ops on char diffs (alphabet {0,1,2}, len 0..=4, n 0..=2) and on 2^23 equal lines + 1 inserted line"),
         "C13" => (c13(&mut cases), "synthetic ops + captured ops for alphabet {0,1,2} len 0..=5 + TextDiff chars"),
         "C05" => (c05(&mut cases), "lines {a,b,c}, 0..=4 lines, optional missing final newline, radius 0..=2"),
-        "C04" | "C17" => (c04(&mut cases), "texts over {a,b,space,newline} len 0..=4, lines/words/chars, iter_all_changes + remapper + utils helpers; 15 line diffs of 101..260 lines and one of 70000 distinct lines (reconstruction through the integer-mapping path)"),
+        "C04" | "C17" => (c04(&mut cases), "texts over {a,b,space,newline} len 0..=4, lines/words/chars, iter_all_changes (deadline none / expired) + remapper + utils helpers; 15 line diffs of 101..260 lines and one of 70000 distinct lines (reconstruction through the integer-mapping path)"),
         _ => {
             eprintln!("usage: replay <C01|C02|C03|C04|C05|C07|C08|C09|C10|C11|C12|C13|C17>");
             std::process::exit(2);
